@@ -528,6 +528,16 @@ Fixpoint reg_ops (fuel : nat) (t : table) (l : list N) : list val :=
             | 8 => let '(r0, t1) := sanitise t in ([match fst r0 with ASuccess => VS "SUCCESS" | AUninit => VS "UNINITIALISED" | _ => VS "REFUSED" end], t1)
             | 9 => let '(r0, hs) := foreach_in t (g 0%nat) (g 1%nat) (map (fun x => (Z.of_N x - 1)%Z) (skipn 2 a)) in
                    ((accv' r0 ++ [VL (map VN hs)])%list, t)
+            | 13 => (* a typed set while the write driver of callback-backed areas fails: idx type bits checked code.  The driver is
+                       reached only by a set that would otherwise succeed on a register of a callback-backed area; nothing is stored *)
+                   let '(r0, t1) := reg_setx t (g 0%nat) {| v_type := rtype_of (g 1%nat); v_bits := g 2%nat |} (negb (g 3%nat =? 0)) in
+                   let custom := match nth_error (t_entries t) (N.to_nat (g 0%nat)) with
+                                 | Some e => match find_area (t_areas t) (e_addr e) 0 with
+                                             | Some (_, ar) => negb (a_is_mem ar) | None => false end
+                                 | None => false end in
+                   (match fst r0 with
+                    | ASuccess => if custom then ([VS "BACKEND-FAILED"], t) else ([VS "SUCCESS"], t1)
+                    | ANoEntry => ([VS "NOENTRY"], t1) | AUninit => ([VS "UNINITIALISED"], t1) | _ => ([VS "REFUSED"], t1) end)
             | 12 => (* the caller switches the table's byte order: register_make_bigendian *)
                    ([VS "order"], {| t_init := t_init t; t_during := t_during t; t_be := negb (g 0%nat =? 0); t_areas := t_areas t; t_entries := t_entries t |})
             | 11 => (* the caller edits the table description: register k gets a new address (to be followed by a new initialisation) *)
